@@ -456,6 +456,12 @@ class Outcome:
             cov["proof_files"] = proofs.files
             cov["proofs_compiled"] = proofs.ok
         cov["translator"] = build.translator if build else {}
+        try:
+            from harness import fingerprint
+            ch = {layer: fingerprint.changed(layer) for layer in fingerprint.LAYERS}
+            cov["hand_modelled_source_changed"] = {k: v for k, v in ch.items() if v}
+        except Exception:  # noqa: BLE001
+            pass
         cov["known_findings_reported"] = sorted(x for x in printed_known if x)
         ev = {
             "property_id": self.prop, "tier": self.tier, "seed": seed(), "level": level,
